@@ -10,13 +10,25 @@ below are therefore re-checked against what the code says now.
 Abstract: base64 is a `Codec` with the law `dec (enc b) = some b` and a line-safe encoding
 (`Codec.Lawful`); all theorems hold for every lawful codec.
 
-Proved for all inputs: `field_inverse_index`, `field_inverse_idb_partial` (decidable table facts over
-the regenerated tables), `index_read_write`, `index_write_read` (any list of well-formed packages),
-the generic `parseIndex_render` for *any* table satisfying `tableOK`.  Installed db: the table facts and
-the concrete negation witnesses; the whole-file theorems for the installed db, the file-record codec,
-passwd and group are not machine-checked yet — they are exercised by `corr:formats` only.
+Proved for all inputs: `field_inverse_index`, `field_inverse_idb_partial`, `field_inverse_idb_table`,
+`field_inverse_idb_files` (decidable table facts over the regenerated tables), `index_read_write`,
+`index_write_read` (any list of well-formed packages), the generic `parseIndex_render` /
+`parseInstalled_render` for *any* table pair satisfying `tableOK` / `idbTableOK` + `fileCasesOK`;
+`idb_read_write` (whole installed db: package fields and file records), `idb_files_read_write`,
+`sortTarHeaders_parent_adjacent`; `passwd_roundtrip`, `group_roundtrip_partial` (struct → bytes → struct)
+and `passwd_roundtrip_bytes`, `group_roundtrip_bytes` (canonical bytes → struct → bytes).  The full
+statements that the unchanged code violates are kept as `def … : Prop` with a proved negation
+(`group_roundtrip`, `passwd_roundtrip_unpadded`, `idb_read_write_full`, `idb_write_read`).
 -/
 import Apko.Proofs.Lemmas.FormatsIndex
+import Apko.Proofs.Lemmas.FormatsPasswd
+import Apko.Proofs.Lemmas.FormatsIdbTable
+import Apko.Proofs.Lemmas.FormatsIdbTotal
+import Apko.Proofs.Lemmas.FormatsSortComplete
+import Apko.Proofs.Lemmas.FormatsSortNodup
+import Apko.Proofs.Lemmas.FormatsNoPanic
+import Apko.Proofs.Lemmas.FormatsSortIdem
+import Apko.Proofs.Lemmas.FormatsIdbReread
 
 namespace Apko.C16
 open Apko Apko.Formats
@@ -168,5 +180,319 @@ theorem group_empty_members_lost :
 theorem passwd_trim_lost :
     (parseUser " a:x:1:1::/:/bin/sh ".toList).map (fun u => (u.name, u.shell)) = some (['a'], "/bin/sh".toList) := by
   decide
+
+/-! ## passwd / group -/
+
+/-- `passwd_roundtrip` (struct → bytes → struct): `UserFile.Load` of what `UserFile.Write` wrote gives
+the entries back, for every list of well-formed entries (`WFUser`: fields free of `:`/LF/CR, ids in
+`uint32`, no white space at the start of the name or the end of the shell — F16f —, line within the
+scanner buffer). -/
+theorem passwd_roundtrip (us : List User) (h : ∀ u ∈ us, WFUser u = true) :
+    loadUsers (writeUsers us) = some us :=
+  loadWith_write parseUser renderUser userLine renderUser_eq us
+    (fun u hu => parseUser_userLine u (WFUser_spec u (h u hu)))
+    (fun u hu => userLine_lineSafe u (WFUser_spec u (h u hu)))
+    (fun u hu => (WFUser_spec u (h u hu)).fit)
+
+/-- `passwd_roundtrip` (bytes → struct → bytes): a canonical passwd file (every line LF-terminated,
+not padded with white space, within the scanner buffer, ids printed the way `%d` prints a `uint32`)
+that loads is reproduced byte for byte by writing what was loaded. -/
+theorem passwd_roundtrip_bytes (t : Text) (l : List User) (hc : canonText canonUserLine t = true)
+    (hl : loadUsers t = some l) : writeUsers l = t :=
+  write_loadWith parseUser renderUser canonUserLine
+    (fun l h => by unfold canonUserLine at h; simp only [Bool.and_eq_true] at h; exact h.1)
+    (fun l e h hp => renderUser_parseUser l e h hp) t l hc hl
+
+/-- `group_roundtrip` (struct → bytes → struct) for entries with at least one member (`WFGroup`) -/
+theorem group_roundtrip_partial (gs : List Group) (h : ∀ g ∈ gs, WFGroup g = true) :
+    loadGroups (writeGroups gs) = some gs :=
+  loadWith_write parseGroup renderGroup groupLine renderGroup_eq gs
+    (fun g hg => parseGroup_groupLine g (WFGroup_spec g (h g hg)))
+    (fun g hg => groupLine_lineSafe g (WFGroup_spec g (h g hg)))
+    (fun g hg => (WFGroup_spec g (h g hg)).fit)
+
+/-- `group_roundtrip` (bytes → struct → bytes); holds for member-less lines too -/
+theorem group_roundtrip_bytes (t : Text) (l : List Group) (hc : canonText canonGroupLine t = true)
+    (hl : loadGroups t = some l) : writeGroups l = t :=
+  write_loadWith parseGroup renderGroup canonGroupLine
+    (fun l h => by unfold canonGroupLine at h; simp only [Bool.and_eq_true] at h; exact h.1)
+    (fun l e h hp => renderGroup_parseGroup l e h hp) t l hc hl
+
+/-- the full statement of `group_roundtrip` (member list may be empty) … -/
+def group_roundtrip : Prop :=
+  ∀ gs : List Group, (∀ g ∈ gs, WFGroup { g with members := g.members ++ [['m']] } = true) →
+    loadGroups (writeGroups gs) = some gs
+
+def noMembers : Group := ⟨"nogroup".toList, ['x'], 65533, []⟩
+
+/-- … is false: F16e, a group without members reads back with one empty member -/
+theorem group_roundtrip_fails : ¬ group_roundtrip := by
+  intro h
+  have := h [noMembers] (by decide)
+  revert this
+  decide
+
+/-- the full statement of `passwd_roundtrip` without the padding clause of `WFUser` … -/
+def passwd_roundtrip_unpadded : Prop :=
+  ∀ us : List User, (∀ u ∈ us, WFUser { u with name := 'x' :: u.name, shell := u.shell ++ ['x'] } = true) →
+    loadUsers (writeUsers us) = some us
+
+/-- … is false: F16f -/
+theorem passwd_roundtrip_unpadded_fails : ¬ passwd_roundtrip_unpadded := by
+  intro h
+  have := h [⟨" a".toList, ['x'], 1, 1, [], ['/'], "/bin/sh ".toList⟩] (by decide)
+  revert this
+  decide
+
+def sampleUser : User := ⟨"build user".toList, ['x'], 4294967295, 0, "a, b".toList, "/home/build".toList, []⟩
+def sampleGroup : Group := ⟨"wheel".toList, [], 10, ["root".toList, [], "build user".toList]⟩
+
+example : WFUser sampleUser = true := by decide
+example : WFGroup sampleGroup = true := by decide
+example : canonText canonUserLine (writeUsers [sampleUser, sampleUser]) = true := by decide
+example : canonText canonGroupLine (writeGroups [sampleGroup, noMembers]) = true := by decide
+
+/-! ## installed db -/
+
+/-- over the regenerated tables (evaluated once, in `Lemmas/FormatsIdbTable.lean`): the lines of
+`PackageToInstalled` are the `i:` line (printed with `%s` of a `[]string`, read with
+`splitRepeatedField`) plus rows that satisfy `tableOK` with the cases of `ParseInstalled`, and every
+field of the record has a line -/
+theorem field_inverse_idb_table : idbTableOK idbRows idbCases = true := idb_tables_ok_pkg
+
+/-- over the regenerated switch: `F:` `M:` `R:` `a:` are the file cases (the parsed permissions reach
+`pkg.Files`), `Z:` has no case -/
+theorem field_inverse_idb_files : fileCasesOK idbCases = true := idb_tables_ok_files
+
+/-- `sortTarHeaders_parent_adjacent`: in the order `AddInstalledPackage` writes headers, every
+non-directory record is preceded by the record of its parent directory with only non-directory
+records in between (or stands before every directory record and is a top-level name) — so the `R:`
+lines are read back against the right `F:` line.  Holds for every input on which `sortTarHeaders`
+terminates. -/
+theorem sortTarHeaders_parent_adjacent (hs out : List FileRec) (h : sortHeaders hs = some out)
+    (pre post : List FileRec) (f : FileRec) (e : out = pre ++ f :: post) (hf : f.isDir = false) :
+    (∃ p1 d run, pre = p1 ++ d :: run ∧ d.isDir = true ∧ (∀ r ∈ run, r.isDir = false) ∧
+        pathClean d.name = pathDir (pathClean f.name)) ∨
+    ((∀ r ∈ pre, r.isDir = false) ∧ pathDir (pathClean f.name) = ['.']) :=
+  sortHeaders_parent_adjacent hs out h pre post f e hf
+
+/-- … and `sortTarHeaders` invents no record -/
+theorem sortTarHeaders_subset (hs out : List FileRec) (h : sortHeaders hs = some out) : ∀ f ∈ out, f ∈ hs :=
+  (sortHeaders_followsDir hs out h).2
+
+/-- `idb_read_write` (whole file): for every list of well-formed installed packages (`WFIPkg`: named,
+fields free of LF/CR, list items non-empty and free of space, integers in range, header names clean,
+relative and free of LF/CR, owners in `int64`) whose rendering succeeds and keeps every line within the
+scanner buffer, `ParseInstalled` of what the `AddInstalledPackage` calls wrote returns, package by
+package, `readBack`: every package field except `install_if` (F16a-idb), and for every header that
+`sortTarHeaders` emits (F16h: top-level files and childless top-level directories are not emitted)
+path, dir / non-dir, permission bits (`& 0o777`, F16d), uid and gid (no checksum, F16c). -/
+theorem idb_read_write (c : Codec) (hc : c.Lawful) (ips : List IPkg) (t : Text)
+    (hr : renderInstalledAll c idbRows ips = .ok t) (hwf : ∀ ip ∈ ips, WFIPkg ip = true)
+    (hfit : linesFit defaultTokenMax (rawLines t) = true) :
+    parseInstalled c idbCases idbGuarded t = .ok (ips.map readBack) :=
+  parseInstalled_idb c hc idbGuarded ips t hr hwf hfit
+
+/-- the package part of `readBack`: all fields except `install_if` -/
+theorem idb_read_write_fields (ip : IPkg) (f : Field) (hf : f ≠ .installIf) :
+    get (readBack ip).pkg f = get ip.pkg f := idbProj_get ip.pkg f hf
+
+/-- `idb_files_read_write`: for a header list that is already in `sortTarHeaders` order, every record
+comes back with its path, kind, permission bits and owner -/
+theorem idb_files_read_write (c : Codec) (hc : c.Lawful) (ip : IPkg) (t : Text)
+    (hstable : sortHeaders ip.files = some ip.files)
+    (hr : renderInstalled c idbRows ip = .ok t) (hwf : WFIPkg ip = true)
+    (hfit : linesFit defaultTokenMax (rawLines t) = true) :
+    parseInstalled c idbCases idbGuarded t = .ok [⟨idbProj ip.pkg, ip.files.map fileProj⟩] := by
+  have h := idb_read_write c hc [ip] t (by simp [renderInstalledAll, hr, Res.bind]) (by simpa using hwf) hfit
+  simpa [readBack, hstable] using h
+
+/-- what `fileProj` keeps -/
+theorem fileProj_keeps (f : FileRec) :
+    (fileProj f).name = f.name ∧ (fileProj f).isDir = f.isDir ∧ (fileProj f).uid = f.uid ∧
+    (fileProj f).gid = f.gid ∧ (fileProj f).mode = f.mode.emod 512 ∧
+    (0 ≤ f.mode → f.mode ≤ 0o777 → (fileProj f).mode = f.mode) := by
+  refine ⟨rfl, rfl, rfl, rfl, rfl, ?_⟩
+  intro h1 h2
+  exact Int.emod_eq_of_lt h1 (by omega)
+
+/-- the hypotheses are satisfiable by a non-trivial package (nested directories, special modes,
+owners, negative gid, both checksum forms, every list shape, maximal integer): well-formed, in
+`sortTarHeaders` order, renders, fits -/
+example : WFIPkg sampleIPkg = true ∧ sortHeaders sampleIPkg.files = some sampleIPkg.files ∧
+    ∃ t, renderInstalled escCodec idbRows sampleIPkg = .ok t ∧ linesFit defaultTokenMax (rawLines t) = true :=
+  ⟨by decide, sampleFiles_sorted, sampleIPkg_renders⟩
+
+/-- … and by headers in a different order (the theorem then speaks about the sorted list) -/
+example : WFIPkg sampleIPkg' = true ∧ sortHeaders sampleIPkg'.files = some sampleFiles := ⟨by decide, sampleFiles_shuffled⟩
+
+/-- the full statement of `idb_read_write` (everything comes back) … -/
+def idb_read_write_full : Prop :=
+  ∀ (c : Codec), c.Lawful → ∀ (ips : List IPkg) (t : Text), renderInstalledAll c idbRows ips = .ok t →
+    (∀ ip ∈ ips, WFIPkg ip = true) → linesFit defaultTokenMax (rawLines t) = true →
+    parseInstalled c idbCases idbGuarded t = .ok (ips.map fun ip => ⟨ip.pkg, (sortHeaders ip.files).getD []⟩)
+
+/-- … is false: F16a-idb (`install_if`, even when empty), F16c (checksum), F16d (mode bits above 0o777) -/
+theorem idb_read_write_full_fails_installIf :
+    readBack ⟨{ name := ['a'] }, []⟩ ≠ ⟨{ name := ['a'] }, []⟩ := by
+  rw [readBack, sortHeaders_nil]; decide
+
+theorem idb_read_write_full_fails_files :
+    sampleFiles.map fileProj ≠ sampleFiles ∧
+    (sampleFiles.map fileProj).map (fun f => (f.name, f.isDir, f.uid, f.gid)) =
+      sampleFiles.map (fun f => (f.name, f.isDir, f.uid, f.gid)) := by decide
+
+/-- `Codec.Lawful` is satisfiable on all texts, so the theorems above are not vacuous -/
+theorem lawful_codec_exists : ∃ c : Codec, c.Lawful := ⟨escCodec, escCodec_lawful⟩
+
+/-- `idb_write_read` in the form proved for the index (reading a written file and writing the result
+again reproduces the bytes) … -/
+def idb_write_read : Prop :=
+  ∀ (c : Codec), c.Lawful → ∀ (ips : List IPkg) (t : Text), renderInstalledAll c idbRows ips = .ok t →
+    (∀ ip ∈ ips, WFIPkg ip = true) → linesFit defaultTokenMax (rawLines t) = true →
+    ∃ qs, parseInstalled c idbCases idbGuarded t = .ok qs ∧ renderInstalledAll c idbRows qs = .ok t
+
+/-- … is false for every package, because of the `i:` line (F16a-idb: `i:[]` reads back as `["[]"]` and
+is written again as `i:[[]]`): the smallest witness (`minimal_facts`) -/
+theorem idb_write_read_fails : ¬ idb_write_read := by
+  intro h
+  obtain ⟨h1, h2, _, h4⟩ := minimal_facts
+  obtain ⟨qs, hq1, hq2⟩ := h escCodec escCodec_lawful [minimalIPkg] _ h1 (by decide) h2
+  rw [idb_read_write escCodec escCodec_lawful [minimalIPkg] _ h1 (by decide) h2] at hq1
+  simp only [Res.ok.injEq] at hq1
+  subst hq1
+  exact h4 hq2
+
+theorem idb_read_write_full_fails : ¬ idb_read_write_full := by
+  intro h
+  obtain ⟨h1, h2, h3, _⟩ := minimal_facts
+  have hq := h escCodec escCodec_lawful [minimalIPkg] _ h1 (by decide) h2
+  rw [idb_read_write escCodec escCodec_lawful [minimalIPkg] _ h1 (by decide) h2] at hq
+  simp only [Res.ok.injEq, List.map_cons, List.map_nil, List.cons.injEq, and_true] at hq
+  exact h3 hq
+
+/-! ## `AddInstalledPackage` is total on well-formed input -/
+
+/-- `sortTarHeaders` terminates on headers with clean relative names (the model's fuel `len + 2` is
+never exhausted: every nesting level passes a distinct record) … -/
+theorem sortTarHeaders_terminates (hs : List FileRec) (h : ∀ f ∈ hs, cleanRel f.name = true) :
+    ∃ out, sortHeaders hs = some out := sortHeaders_total hs h
+
+/-- … and the hypothesis is needed: one directory header "." exhausts every fuel (Go recurses until the
+stack overflows) -/
+theorem sortTarHeaders_dot_diverges : sortHeaders [dotDir] = none := sortHeaders_dot
+
+/-- well-formed packages whose checksum records are absent, `Q1…` or valid hex are always written -/
+theorem idb_write_total (c : Codec) (ips : List IPkg) (hwf : ∀ ip ∈ ips, WFIPkg ip = true)
+    (hcs : ∀ ip ∈ ips, ∀ f ∈ ip.files, csumOK f = true) :
+    ∃ t, renderInstalledAll c idbRows ips = .ok t :=
+  renderInstalledAll_total c idbRows ips (fun ip hip f hf => ⟨WFIPkg_files ip (hwf ip hip) f hf, hcs ip hip f hf⟩)
+
+/-- `idb_read_write` with the writer's success discharged -/
+theorem idb_read_write_total (c : Codec) (hc : c.Lawful) (ips : List IPkg) (hwf : ∀ ip ∈ ips, WFIPkg ip = true)
+    (hcs : ∀ ip ∈ ips, ∀ f ∈ ip.files, csumOK f = true) :
+    ∃ t, renderInstalledAll c idbRows ips = .ok t ∧
+      (linesFit defaultTokenMax (rawLines t) = true →
+        parseInstalled c idbCases idbGuarded t = .ok (ips.map readBack)) := by
+  obtain ⟨t, ht⟩ := idb_write_total c ips hwf hcs
+  exact ⟨t, ht, idb_read_write c hc ips t ht hwf⟩
+
+example : sampleFiles.all csumOK = true := by decide
+
+/-! ## which headers the installed db lists (the exact extent of F16h / F07a) -/
+
+/-- `sortTarHeaders_complete`: on a tree-shaped header list (`treeOK`: clean relative names, pairwise
+distinct, every non-top-level record has a *directory* record for its parent) `sortTarHeaders`
+terminates and emits exactly the records that are not top-level, plus the top-level directories that
+have a child; i.e. precisely the top-level files and the childless top-level directories are missing
+from the installed db. -/
+theorem sortTarHeaders_complete (hs : List FileRec) (ht : treeOK hs = true) :
+    ∃ out, sortHeaders hs = some out ∧
+      ∀ x, x ∈ out ↔ (x ∈ hs ∧ (pathDir x.name ≠ ['.'] ∨ (x.isDir = true ∧ ∃ y ∈ hs, pathDir y.name = x.name))) := by
+  obtain ⟨out, h1, h2⟩ := sortHeaders_mem hs (treeOK_spec hs ht)
+  exact ⟨out, h1, fun x => by rw [h2 x, emitted_iff]⟩
+
+/-- consequently every non-top-level header of a well-formed package with a tree-shaped header list is
+read back from the installed db (path, kind, permission bits, owner), and nothing else is -/
+theorem idb_files_complete (c : Codec) (hc : c.Lawful) (ip : IPkg) (t : Text) (htree : treeOK ip.files = true)
+    (hr : renderInstalled c idbRows ip = .ok t) (hwf : WFIPkg ip = true)
+    (hfit : linesFit defaultTokenMax (rawLines t) = true) :
+    ∃ fs, parseInstalled c idbCases idbGuarded t = .ok [⟨idbProj ip.pkg, fs⟩] ∧
+      ∀ g, g ∈ fs ↔ ∃ f ∈ ip.files, emitted ip.files f = true ∧ g = fileProj f := by
+  obtain ⟨out, h1, h2⟩ := sortHeaders_mem ip.files (treeOK_spec ip.files htree)
+  have h := idb_read_write c hc [ip] t (by simp [renderInstalledAll, hr, Res.bind]) (by simpa using hwf) hfit
+  refine ⟨out.map fileProj, by simpa [readBack, h1] using h, ?_⟩
+  intro g
+  simp only [List.mem_map, h2]
+  constructor
+  · rintro ⟨f, ⟨hf, he⟩, rfl⟩; exact ⟨f, hf, he, rfl⟩
+  · rintro ⟨f, hf, he, rfl⟩; exact ⟨f, ⟨hf, he⟩, rfl⟩
+
+example : treeOK sampleFiles = true := by decide
+/-- a tree with a top-level file and a childless top-level directory: both are `emitted = false` -/
+example : treeOK (⟨"README".toList, false, 0o644, 0, 0, []⟩ :: ⟨"tmp".toList, true, 0o1777, 0, 0, []⟩ :: sampleFiles) = true ∧
+    (⟨"README".toList, false, 0o644, 0, 0, []⟩ :: ⟨"tmp".toList, true, 0o1777, 0, 0, []⟩ :: sampleFiles).filter
+      (fun x => !emitted (⟨"README".toList, false, 0o644, 0, 0, []⟩ :: ⟨"tmp".toList, true, 0o1777, 0, 0, []⟩ :: sampleFiles) x)
+      = [⟨"README".toList, false, 0o644, 0, 0, []⟩, ⟨"tmp".toList, true, 0o1777, 0, 0, []⟩] := by decide
+
+/-- `sortTarHeaders_perm`: with names that are also distinct as a list, the output is a permutation of
+the kept records — every kept record is listed exactly once -/
+theorem sortTarHeaders_perm (hs : List FileRec) (ht : treeOK hs = true) (hn : namesNodup hs = true) :
+    ∃ out, sortHeaders hs = some out ∧ out.Perm (hs.filter (emitted hs)) :=
+  sortHeaders_perm hs (treeOK_spec hs ht) hn
+
+example : namesNodup sampleFiles = true := by decide
+
+/-! ## the readers are total -/
+
+/-- `ParseInstalled`, as it is today (`tie_idbGuarded`), panics on no input; `ParsePackageIndex` neither -/
+theorem readers_no_panic (c : Codec) (t : Text) :
+    parseInstalled c idbCases idbGuarded t ≠ .oob ∧ parseIndex c indexCases t ≠ .oob := by
+  rw [tie_idbGuarded]
+  exact ⟨parseInstalled_no_panic c idbCases t, parseIndex_no_panic c indexCases t⟩
+
+/-- without the guard a one-byte line indexes out of range (F15a, repaired) -/
+theorem unguarded_panics : parseInstalled idCodec [] false "x\n".toList = .oob := by decide
+
+/-! ## the installed db does not depend on the order of the tar entries -/
+
+/-- `sortTarHeaders` of a tree-shaped header list is the same list for every permutation of the input -/
+theorem sortTarHeaders_order_independent (hs1 hs2 : List FileRec) (ht : treeOK hs1 = true) (hp : hs1.Perm hs2) :
+    sortHeaders hs1 = sortHeaders hs2 :=
+  sortHeaders_perm_invariant hs1 hs2 (treeOK_spec hs1 ht) hp
+
+/-- … hence so is the text `AddInstalledPackage` appends -/
+theorem idb_order_independent (c : Codec) (p : Pkg) (fs1 fs2 : List FileRec) (ht : treeOK fs1 = true)
+    (hp : fs1.Perm fs2) : renderInstalled c idbRows ⟨p, fs1⟩ = renderInstalled c idbRows ⟨p, fs2⟩ := by
+  unfold renderInstalled
+  simp only [sortTarHeaders_order_independent fs1 fs2 ht hp]
+
+example : sortHeaders sampleFiles.reverse = sortHeaders sampleFiles :=
+  (sortTarHeaders_order_independent sampleFiles sampleFiles.reverse (by decide) (List.reverse_perm _).symm).symm
+
+/-- `sortTarHeaders` is idempotent on tree-shaped header lists with distinct names: sorting the list it
+produced gives the same list (so a db that is read and written again keeps its file order), and
+dropping the records it does not emit changes nothing -/
+theorem sortTarHeaders_idempotent (hs out : List FileRec) (ht : treeOK hs = true) (hn : namesNodup hs = true)
+    (h : sortHeaders hs = some out) :
+    sortHeaders out = some out ∧ sortHeaders (hs.filter (emitted hs)) = some out :=
+  ⟨sortHeaders_idem hs (treeOK_spec hs ht) hn out h, by rw [← h]; exact sortHeaders_kept hs (treeOK_spec hs ht)⟩
+
+/-! ## `idb_write_read`, the part that holds -/
+
+/-- `idb_write_read_partial`: for a well-formed package whose header list is a tree with distinct names,
+the db text that was written is read, and writing what was read gives the same text *except for the
+`i:` line (F16a-idb) and the `Z:` lines (F16c)*: same package lines, same `F:`/`M:`/`R:`/`a:` lines in the
+same order (`stripIZ` removes the lines that start with `i` or `Z`). -/
+theorem idb_write_read_partial (c : Codec) (hc : c.Lawful) (ip : IPkg) (t : Text)
+    (hr : renderInstalled c idbRows ip = .ok t) (hwf : WFIPkg ip = true) (htree : treeOK ip.files = true)
+    (hn : namesNodup ip.files = true) (hfit : linesFit defaultTokenMax (rawLines t) = true) :
+    ∃ q t', parseInstalled c idbCases idbGuarded t = .ok [q] ∧ renderInstalled c idbRows q = .ok t' ∧
+      stripIZ t' = stripIZ t := by
+  obtain ⟨pre, post, htab⟩ := idbTableOK_spec idbRows idbCases field_inverse_idb_table
+  obtain ⟨t', h1, h2⟩ := renderInstalled_reread_text c hc idbCases idbRows pre post htab ip hwf
+    (treeOK_spec ip.files htree) hn t hr
+  have h := idb_read_write c hc [ip] t (by simp [renderInstalledAll, hr, Res.bind]) (by simpa using hwf) hfit
+  exact ⟨readBack ip, t', by simpa using h, h1, h2⟩
 
 end Apko.C16
